@@ -357,7 +357,23 @@ def r9(tree, rep):
                        "connection and nothing issued after it is ever delivered")
 
 
+def r10(tree, rep):
+    """every OPEN creates its own subchannel at the peer: the ids the two sides allocate never collide (the rule instances are C13.R2)"""
+    from .C13 import r2 as c13_r2
+    sub = type(rep)(rep.pid, rep.tier, rep.seed)
+    c13_r2(tree, sub)
+    for o in sub.obligations:
+        if o["rule"] == "C13.R2":
+            rep.obligations.append(dict(o, rule="C10.R10"))
+            rep.evaluations += 1
+    for v in sub.violations:
+        if v["rule"] == "C13.R2":
+            rep.violation("C10.R10", v["key"].replace("C13.R2", "C10.R10"),
+                          v["what"] + " (an OPEN is dropped as a duplicate and its DATA / CLOSE reach another subchannel)", v.get("site"), v.get("detail"), _count=False)
+
+
 def run(tree, rep, tier):
+    r10(tree, rep)
     r1(tree, rep)
     r2(tree, rep)
     r3(tree, rep)
